@@ -12,7 +12,7 @@ use crate::world::*;
 use crate::Params;
 
 /// expected new multiplier, or None when the specified step would take it below zero
-fn expected(m: u128, delta: i8, tip901: bool) -> Option<BigInt> {
+pub(crate) fn expected(m: u128, delta: i8, tip901: bool) -> Option<BigInt> {
     let mut step = BigInt::from(m >> 7);
     if tip901 && step < BigInt::from(2) {
         step = BigInt::from(2);
